@@ -1,0 +1,54 @@
+//go:build verif
+
+package macaroon
+
+// Verification hooks (build tag "verif" only): accessors for unexported state
+// and primitives that the verification harness needs in order to play the
+// attacker (assemble tokens from held parts) and to drive both nonce formats
+// and both discharge styles. Add-only; nothing here is compiled without the tag.
+
+import msgpack "github.com/vmihailenco/msgpack/v5"
+
+func VerifNonce(kid, rnd []byte, proof bool, version int) Nonce {
+	return Nonce{nonceV0Fields{KID: kid, Rnd: rnd}, nonceV1Fields{Proof: proof}, version}
+}
+
+func VerifNonceFields(n Nonce) (kid, rnd []byte, proof bool, version int) {
+	return n.KID, n.Rnd, n.Proof, n.version
+}
+
+func (m *Macaroon) VerifNewProof() bool     { return m.newProof }
+func (m *Macaroon) VerifSetNewProof(b bool) { m.newProof = b }
+
+func VerifSign(key, msg []byte) []byte   { return sign(SigningKey(key), msg) }
+func VerifDigest(b []byte) []byte        { return digest(b) }
+func VerifFinalize(tail []byte) []byte   { return finalizeSignature(tail) }
+func VerifSeal(key, pt []byte) []byte    { return seal(EncryptionKey(key), pt) }
+func VerifEncode(v any) ([]byte, error)  { return encode(v) }
+func (c *Caveat3P) VerifRN() []byte      { return c.rn }
+func (c *Caveat3P) VerifSetRN(rn []byte) { c.rn = rn }
+
+func VerifUnseal(key, ct []byte) ([]byte, error) { return unseal(EncryptionKey(key), ct) }
+
+func VerifDischargeTicket(ka EncryptionKey, location string, ticket []byte, issueProof bool) ([]Caveat, *Macaroon, error) {
+	return dischargeTicket(ka, location, ticket, issueProof)
+}
+
+// VerifNewMacaroon mints a token with a chosen proof flag (New always mints non-proofs).
+func VerifNewMacaroon(kid []byte, loc string, key SigningKey, isProof bool) (*Macaroon, error) {
+	return newMacaroon(kid, loc, key, isProof)
+}
+
+func VerifEncodeTicket(dischargeKey []byte, cavs ...Caveat) ([]byte, error) {
+	return encode(&wireTicket{DischargeKey: dischargeKey, Caveats: *NewCaveatSet(cavs...)})
+}
+
+func VerifDecodeTicket(b []byte) ([]byte, []Caveat, error) {
+	t := &wireTicket{}
+	if err := msgpack.Unmarshal(b, t); err != nil {
+		return nil, nil, err
+	}
+	return t.DischargeKey, t.Caveats.Caveats, nil
+}
+
+const VerifBindingIdLength = bindingIdLength
